@@ -248,7 +248,13 @@ func (x *Exec) allocObj(t types.Type, ptrT types.Type, zero bool) *PtrV {
 	if zero {
 		x.storeTo(p, x.zeroVal(t))
 	}
-	for _, g := range x.eng.specs.Ghosts {
+	var gkeys []string
+	for k := range x.eng.specs.Ghosts {
+		gkeys = append(gkeys, k)
+	}
+	sort.Strings(gkeys)
+	for _, gk := range gkeys {
+		g := x.eng.specs.Ghosts[gk]
 		gt := x.resolveType(g.Pkg, parseExpr(g.Type, "ghost"))
 		if gt != nil && types.Identical(gt, t) {
 			ft := x.resolveTypeStr(g.Pkg, g.GoType)
